@@ -267,6 +267,45 @@ def table_by_interpretation(ctx):
     return table, special_tpl, dash
 
 
+def decoder_replaces(ctx) -> CS:
+    """The set of code points cp for which css_unescape('\\<hex of cp> ') is U+FFFD rather than chr(cp)."""
+    from ..interp import Raised, call_function
+    from ..miniev import Unsupported
+    mod = ctx.src.mod('css_parser')
+    top = 0xFFFFFF
+    cuts = {0, top + 1, 0xD800, 0xE000, 0x10000, MAXCP, MAXCP + 1}
+    for n in ast.walk(mod.tree):
+        if isinstance(n, ast.Constant) and isinstance(n.value, int) and not isinstance(n.value, bool) and 0 <= n.value <= top:
+            cuts.update((n.value, n.value + 1))
+    folder = ctx.consts.folder
+    for name in folder.env_nodes.get('css_parser', {}):
+        v = folder.try_ev('css_parser', ast.Name(id=name, ctx=ast.Load()), default=None)
+        if isinstance(v, int) and not isinstance(v, bool) and 0 <= v <= top:
+            cuts.update((v, v + 1))
+    pts = sorted(c for c in cuts if 0 <= c <= top + 1)
+    out = []
+    for a, b in zip(pts, pts[1:]):
+        verdicts = set()
+        for cp in sorted({a, b - 1, (a + b) // 2}):
+            try:
+                got = call_function(ctx, 'css_parser.css_unescape', ['\\%x ' % cp], {}, {}, None, {'regex_engine': True})
+            except Raised as e:
+                raise AnalysisError(f'css_unescape raises {e.exc_name} on the hex escape of U+{cp:04X}')
+            except Unsupported as e:
+                raise AnalysisError(f'css_unescape: outside the evaluable fragment: {e}')
+            if got == '\ufffd' and cp != 0xFFFD:
+                verdicts.add('replaced')
+            elif cp <= 0x10FFFF and got == chr(cp):
+                verdicts.add('kept')
+            else:
+                raise AnalysisError(f'css_unescape maps the hex escape of U+{cp:04X} to {got!r}: neither the character nor U+FFFD')
+        if len(verdicts) != 1:
+            raise AnalysisError(f'css_unescape does not treat U+{a:04X}..U+{b - 1:04X} uniformly although no constant of the module separates them')
+        if verdicts.pop() == 'replaced':
+            out.append((a, b))
+    return CS.norm(out)
+
+
 def branches(ifn: ast.If):
     out = []
     while True:
@@ -516,34 +555,10 @@ def run(ctx, report: Report) -> None:
         if w is not None:
             r3.violation(f'RE_CSS_ESC {what}', esc.where,
                          f'the escape decoder RE_CSS_ESC no longer inverts escape(): {what} fails on {w!r}')
-    umod, outer = src.func('css_parser.css_unescape')
-    cb = [c.args[0].id for c in ast.walk(outer) if isinstance(c, ast.Call) and isinstance(c.func, ast.Attribute)
-          and c.func.attr == 'sub' and c.args and isinstance(c.args[0], ast.Name)]
-    if len(cb) != 1:
-        raise AnalysisError('css_unescape: the REGEX.sub(callback, content) call was not found (anchor vanished)')
-    ufn = umod.functions.get(f'css_unescape.{cb[0]}') or umod.functions.get(cb[0])
-    if ufn is None:
-        raise AnalysisError(f'css_unescape: substitution callback {cb[0]} not found (anchor vanished)')
-    # code points the decoder replaces by U+FFFD
-    cp_name = None
-    repl = CS()
-    for st in walk_no_nested(ufn):
-        if isinstance(st, ast.Assign) and isinstance(st.value, ast.Call) and call_name(st.value) == 'int' \
-                and isinstance(st.targets[0], ast.Name):
-            cp_name = st.targets[0].id
-    if cp_name is None:
-        raise AnalysisError('css_unescape.replace: `codepoint = int(...)` not found')
-    dec = TableExtractor(ctx, umod, ufn)
-    dec.cp_var = cp_name
-    for st in walk_no_nested(ufn):
-        if isinstance(st, ast.If) and any(isinstance(n, ast.Name) and n.id == cp_name for n in ast.walk(st.test)):
-            assigns = [a for a in st.body if isinstance(a, ast.Assign) and isinstance(a.targets[0], ast.Name)
-                       and a.targets[0].id == cp_name]
-            if assigns:
-                v = inv.folder.try_ev('css_parser', assigns[0].value, default=None)
-                if v != 0xFFFD:
-                    raise AnalysisError('css_unescape.replace: replacement value is not U+FFFD')
-                repl = repl | dec.ev(st.test, 2, False, ALL)
+    # code points the decoder replaces by U+FFFD: css_unescape is interpreted (its regex applied by the analyser's own matcher
+    # over the pattern's parse tree) on the hex escape of a representative of every code-point interval that a constant of
+    # the module can separate
+    repl = decoder_replaces(ctx)
     report.extra['decoder_replaces'] = repr(repl)
     for (sd, index), rows in sorted(table.items()):
         for cs, tpl in rows:
